@@ -95,6 +95,14 @@ Theorem validator_tensordot_spec :
 Proof. exact validator_tensordot_spec_proof. Qed.
 Print Assumptions validator_tensordot_spec.
 
+(* dot of two 1-d operands (the repair of D19): lengths must agree *)
+Theorem validator_dot_1d_spec :
+  forall la lb : Z,
+    (la = lb -> v_dot_1d_check la lb = Ok VNone) /\
+    (la <> lb -> v_dot_1d_check la lb = Raise ValueError).
+Proof. exact validator_dot_1d_spec_proof. Qed.
+Print Assumptions validator_dot_1d_spec.
+
 (* tensordot's zero-size shortcut fires iff the CONTRACTED extent is 0: zero-length FREE axes reach
    the kernels, whose own loop tests must (and, since the repair of D3, do) handle them *)
 Theorem tensordot_shortcut_spec :
@@ -211,3 +219,18 @@ Theorem algA_safe :
     exists arr, algA F gt last_draw n N = Done arr.
 Proof. exact algA_safe_proof. Qed.
 Print Assumptions algA_safe.
+
+(* algD's rejection loops terminate with probability 1 only.  Partial form: for EVERY oracle stream
+   (draw k = the k-th candidate S = intp(X) with the answers of the two float acceptance tests) in
+   which, from every position on and for every positive qu1, an accepting draw (S < qu1 passing one
+   of the tests) eventually occurs, and whose candidates are non-negative (S = intp(N * (1 - Vprime))
+   with 0 <= Vprime <= 1), the kernel does not run out of fuel for any sufficiently large fuel.  No
+   polynomial bound exists: the waiting time for an accepting draw is a property of the stream. *)
+Theorem algD_terminates_partial :
+  forall draw : nat -> Z * bool * bool,
+    (forall i : nat, 0 <= dS draw i) ->
+    (forall (qu1 : Z) (k : nat), 0 < qu1 -> exists j : nat, accepting draw qu1 (k + j) = true) ->
+    forall n0 N : Z, 1 <= n0 < N ->
+    exists B : nat, forall F : nat, (B <= F)%nat -> algD F draw n0 N <> OutOfFuel.
+Proof. exact algD_terminates_partial_proof. Qed.
+Print Assumptions algD_terminates_partial.
